@@ -136,6 +136,16 @@ Section Eval.
     | _, _ => Stuck "binop: operand kinds"
     end.
 
+  Definition both_ptr (a b : val) : bool :=
+    match a with VPtr _ => match b with VPtr _ => true | _ => false end | _ => false end.
+
+  (* comparison of two raw pointers is a question to the world (provenance) *)
+  Definition ptr_cmp_name (op : binop) : string :=
+    match op with
+    | Lt => "ptr:lt" | Le => "ptr:le" | Gt => "ptr:gt" | Ge => "ptr:ge" | Eq => "ptr:eq" | Ne => "ptr:ne"
+    | _ => "ptr:arith"
+    end.
+
   (* calls whose meaning does not depend on the world *)
   Definition builtin (f : string) (args : list val) : option (outcome F val) :=
     match f, args with
@@ -263,7 +273,12 @@ Section Eval.
             end)
       | EBin op a b =>
           eval_expr fuel a en w kr (fun va w =>
-            eval_expr fuel b en w kr (fun vb w => kont (binop_val op va vb) w k))
+            eval_expr fuel b en w kr (fun vb w =>
+              (* two raw pointers: the world decides the address order.  (The choice is a
+                 function applied to w and k so that k occurs once: symbolic evaluation with a
+                 not-yet-known operand must not duplicate the continuation.) *)
+              (if both_ptr va vb then prim (ptr_cmp_name op) [va; vb]
+               else fun w k => kont (binop_val op va vb) w k) w k))
       | ENot a =>
           eval_expr fuel a en w kr (fun va w =>
             match va with
